@@ -117,3 +117,12 @@ Theorem C04_translated_reset_is_model :
   /\ ok_opt (gen_tree_is_empty lvs) = ok_opt (tree_is_empty (mktree lvs v)).
 Proof. exact RV.Proofs.CodeTree.gen_reset_model. Qed.
 Print Assumptions C04_translated_reset_is_model.
+
+(* the whole batch on the code as written: reset; push_leaf for every leaf; compute_root; get_paths for
+   every position — composed from the TRANSLATED functions (Proofs/CodeTree.v gen_batch) — yields
+   exactly the functional tree's root and paths, on any tree object left behind by earlier batches *)
+Theorem C04_translated_batch_is_spec :
+  forall H, HashLen H -> forall v lvs ls, lvs <> [] -> batch_ok ls ->
+  exists lvs', RV.Proofs.CodeTree.gen_batch H v lvs ls = Ok (lvs', spec_root H v ls, spec_paths H v ls) /\ lvs' <> [].
+Proof. exact RV.Proofs.CodeTree.gen_batch_is_spec. Qed.
+Print Assumptions C04_translated_batch_is_spec.
